@@ -32,6 +32,8 @@ def make_file(rng, nmsgs, frac=0):
         elif step:
             sec += step
             nanos = rng.choice([0, 500_000_000]) if frac else 0
+        if frac:
+            nanos -= nanos % 10 ** (9 - frac)      # (the instant is what the digits written say)
         # the first two messages are short one-liners so that block-zero analysis accepts the file at every
         # block size >= 64 (that acceptance is C02/C12's subject, not this property's)
         head = gen.fmt_ts(sec, nanos, None, frac).encode() + b" m%d" % i + b" " + b"p" * (rng.choice([0, 1, 7, 30, 90]) if i >= 2 else 0)
@@ -106,7 +108,7 @@ def run(pid, tier, seed):
         os.makedirs(fdir)
         files = []
         for fi in range(nfiles):
-            frac = rng.choice([0, 0, 3, 6])
+            frac = [0, 3, 6, 7, 1, 9, 0, 2, 8, 4, 5][fi % 11]      # (every number of fractional digits comes round)
             blob, msgs = make_file(rng, rng.choice([1, 2, 3, 5, 8, 12, 20]), frac)
             p = os.path.join(fdir, "f%d.log" % fi)
             with open(p, "wb") as f:
